@@ -24,7 +24,11 @@ static void observe(VariantData& v, ResourceManager& rm, MOut* o) {
     case VariantType::Boolean: o->kind = v.asBoolean(&rm) ? 2 : 1; break;
     case VariantType::Int32: case VariantType::Int64: o->kind = 3; o->bits = uint64_t(v.asIntegral<int64_t>(&rm)); break;
     case VariantType::Uint32: case VariantType::Uint64: o->kind = 4; o->bits = v.asIntegral<uint64_t>(&rm); break;
-    case VariantType::Float: case VariantType::Double: { o->kind = 5; double x = v.asFloat<double>(&rm); memcpy(&o->bits, &x, 8); break; }
+    case VariantType::Float:
+#if ARDUINOJSON_USE_DOUBLE
+    case VariantType::Double:
+#endif
+    { o->kind = 5; double x = v.asFloat<double>(&rm); memcpy(&o->bits, &x, 8); break; }
     case VariantType::OwnedString: case VariantType::LinkedString: { o->kind = 7; JsonString s = v.asString(); o->len = unsigned(s.size()); for (unsigned i = 0; i < 16 && i < s.size() + 1; i++) o->bytes[i] = (unsigned char)s.c_str()[i]; break; }
     case VariantType::RawString: { o->kind = 8; JsonString s = v.asRawString(); o->len = unsigned(s.size()); for (unsigned i = 0; i < 16 && i < s.size(); i++) o->bytes[i] = (unsigned char)s.c_str()[i]; break; }
     case VariantType::Array: o->kind = 9; break;
